@@ -332,7 +332,7 @@ def run(ctx):
         summ = counts_oracle(ctx, ctx.scale(600, 6000))
         ctx.add_summary(summ, "control counts oracle")
     if os.path.exists(os.path.join(C.COQ, "Extract", "C02READER.v")):
-        ctx.assumptions += ["charset.NewReader (character-set sniffing of ach.NewReader: bytes that are not UTF-8 are decoded as windows-1252) delivers valid UTF-8; the model reads a text declared as UTF-8 (bufio.ScanRunes on the bytes), C02_reader_domain_lines covers every list of valid UTF-8 lines",
+        ctx.assumptions += ["charset.NewReader (in front of the framing: windows-1252 for sniffed non-UTF-8 input, U+FFFD replacement under a declared UTF-8) is outside the model; the statement quantifies over all byte strings, hence over its output (C02_reader_domain_decoded); for texts that are not UTF-8 the model reads what the real decoder delivers",
                             "time.Now().Format(\"1504\") is four characters of valid UTF-8 (the clock of C02_reader_domain)"]
         summ = reader_run(ctx, ctx.scale(60, 400), ctx.scale(2600, 24000))
         ctx.add_summary(summ, "reader domain oracle")
